@@ -24,7 +24,7 @@ ActOf(r) == <<r.op, r.p[1], r.p[2], r.p[3]>>
 \* member actions must name a member of the run's object
 WellFormed(o, a) ==
     IF a[1] \in {"Mutate", "NestedEdit", "Insert", "Delete"} THEN a[2] \in DOMAIN o
-    ELSE IF a[1] \in SignOps THEN a[2] \in Entities /\ a[3] \in KeyIDs /\ a[4] \in Keys
+    ELSE IF a[1] \in SignOps THEN a[2] \in Entities /\ a[3] \in KeyIDs /\ a[4] \in Keys \cup {Junk}
     ELSE TRUE
 
 ObsOK(r, o, s) ==
